@@ -32,6 +32,48 @@ def io_ast(wd):
     return d["functions"]
 
 
+ENTRY_WITNESS = r"""
+#include "vf_common.hpp"
+#include <boost/gil/extension/io/bmp.hpp>
+#include <boost/gil/extension/io/pnm.hpp>
+#include <boost/gil/extension/io/targa.hpp>
+#include <boost/gil/extension/io/png.hpp>
+#include <boost/gil/extension/io/jpeg.hpp>
+#include <fstream>
+using namespace vf;
+// the statement's "by file name, FILE* or std::istream", for the factory of the scanline reader as well
+template <class Tag> void scan_devices(Tag tag){
+  std::ifstream in("f", std::ios::binary); FILE* fp = nullptr; std::string name("f");
+  auto r1 = make_scanline_reader(name, tag); auto r2 = make_scanline_reader(in, tag); auto r3 = make_scanline_reader(fp, tag); (void)r1; (void)r2; (void)r3;
+}
+void inst(){ scan_devices(bmp_tag()); scan_devices(pnm_tag()); scan_devices(targa_tag()); scan_devices(png_tag()); scan_devices(jpeg_tag()); }
+"""
+
+
+def entry_points_compile(rep, wd):
+    rep.rule("S0 make_scanline_reader(file name | std::istream | FILE*, tag) instantiates for bmp, pnm, targa, png and jpeg (tiff has no FILE* device): a factory that does not compile "
+             "cannot agree with read_image on any device")
+    src = os.path.join(wd, "entry_witness.cpp")
+    open(src, "w").write(ENTRY_WITNESS)
+    rc, err, cmd = C.syntax_only(src, defs=C.IO_DEFS)
+    rep.count("obligations:S0")
+    if rc == 0:
+        rep.ok("S0-entry-points", "S0:make_scanline_reader x {name, istream, FILE*} x 5 formats", "compiles")
+        return
+    seen = set()
+    for e in C.parse_errors(err)[:20]:
+        if "include/boost/gil/" not in e["file"]:
+            continue
+        loc = "%s:%s" % (C.repo_rel(e["file"]), e["line"])
+        key = "S0:%s:%s" % (C.repo_rel(e["file"]), re.sub(r"'[^']{40,}'", "'...'", e["msg"])[:100])
+        if key in seen:
+            continue
+        seen.add(key)
+        rep.violation("S0-entry-points", key, loc, {"error": e["msg"][:300], "example": "std::ifstream in(...); auto rd = make_scanline_reader(in, pnm_tag());"})
+    if not seen:
+        raise C.AnalysisBroken("entry point witness does not compile: %s" % err[-600:])
+
+
 def fmt_of(f):
     m = re.search(r"(bmp|pnm|targa|png|jpeg|tiff|raw)_tag", f.get("cls", "") + f.get("full", ""))
     return m.group(1) if m else None
@@ -43,6 +85,7 @@ def run(rep):
     fns = io_ast(wd)
     rep.units.append("drivers/io_driver.cpp: %d instantiated I/O functions" % len(fns))
     rep.trusted += ["clang front end (instantiated AST)", "harness/ast/rules.py", "harness/ir/bits.py"]
+    entry_points_compile(rep, wd)
     must_call(rep, fns)
     check_image_size(rep, fns)
     devices_ast(rep, fns)
@@ -271,6 +314,97 @@ def pitch_pairs(rep, fns):
                 rep.violation("S4-clone-pair", key, W + "extension/io/%s/detail/read.hpp vs scanline_read.hpp" % fmt,
                               {"reader_only": sorted(a2 - b2), "scanline_reader_only": sorted(b2 - a2)})
     rep.floor("obligations:S4", 3)
+    # S4c: the text rasters of pnm are parsed into a byte row of the FILE's type (gray8 / rgb8), which is converted afterwards
+    rep.rule("S4c pnm reader::read_text_row: the value stored into the byte row for a set bit of a P1 raster is the maximum of the row's own element type (255, as in the scanline "
+             "reader's copy) in every instantiation -- not the maximum of the destination view's channel, which a converting read into float / 16-bit / signed pixels instantiates with another type")
+    got = {}
+    for f in fns:
+        if fmt_of(f) != "pnm" or not f["name"].endswith("reader::read_text_row") or "scanline_reader" in f["name"] or f.get("body") is None:
+            continue
+        for c, _ in R.find(f["body"], lambda x: x.get("k") == "Cond"):
+            for arm in ("then", "else"):
+                n = c[arm]
+                mx = [y for y, _ in R.find(n, lambda y: y.get("k") == "Call" and (y.get("callee") or {}).get("name", "").endswith("max_value"))]
+                for y in mx:
+                    m = re.search(r"channel_traits(?:_impl)?<([^,>]+(?:<[^>]*>)?[^,>]*)", y["callee"].get("full", ""))
+                    got.setdefault(m.group(1).strip() if m else y["callee"].get("full", "")[:60], f)
+                cv = None
+                k = R.key(n)
+                if not mx and k.strip("()").isdigit() and int(k.strip("()")) > 1:
+                    got.setdefault("literal %s" % k.strip("()"), f)
+    rep.count("obligations:S4")
+    wrong = {t: f for t, f in got.items() if t not in ("unsigned char", "literal 255")}
+    if not got:
+        rep.fail_analysis("S4c: no maximum found in pnm reader::read_text_row")
+    elif wrong:
+        rep.violation("S4-clone-pair", "S4c:pnm:reader::read_text_row:value of a set bit", R.fn_where(list(wrong.values())[0]), {"maximum taken from channel types": sorted(got),
+                      "example": "\"P1 3 1 / 0 1 0\" read with read_and_convert_image into gray32f: white pixels are 0.0039 (the byte 1 converted) instead of 1.0; into gray8s: -1 instead of 127"})
+    else:
+        rep.ok("S4-clone-pair", "S4c:pnm:reader::read_text_row:value of a set bit", sorted(got))
+    # S4d: the overloads of pnm reader::copy_data (gray1 destination / any other) take the same columns of the row
+    rep.rule("S4d pnm reader::copy_data, both overloads: the source row is read from column _settings._top_left.x on and _settings._dim.x pixels are taken "
+             "(an element access src[i] has _settings._top_left.x in its index and its loop is bounded by _settings._dim.x; an iterator range starts at row_begin + _top_left.x and is _dim.x long)")
+    seen_cd = set()
+    for f in fns:
+        if fmt_of(f) != "pnm" or not f["name"].endswith("reader::copy_data") or f.get("body") is None or len(f["params"]) != 4:
+            continue
+        kind = "gray1 destination" if "true" in f["params"][3]["type"] else "other destinations"
+        if kind in seen_cd:
+            continue
+        seen_cd.add(kind)
+        rep.count("obligations:S4")
+        g = R.canonize(f)           # $0 destination, $1 source row view, $2 y
+        key = "S4d:pnm:reader::copy_data:%s" % kind
+        prob = []
+        subs = [x for x, _ in R.find(g["body"], lambda x: (x.get("k") in ("Subscript", "Index") or (x.get("k") == "Call" and x.get("op") == "[]")) and R.key(x).startswith("$1["))]
+        for x in subs:
+            if "_settings._top_left.x" not in R.key(x):
+                prob.append("the source row is indexed with %s: the region's left edge is ignored" % R.key(x)[:60])
+        loops = [lp for lp, _ in R.find(g["body"], lambda x: x.get("k") == "For") if R.find(lp["body"], lambda y: R.key(y).startswith("$1["))]
+        for lp in loops:
+            if "_settings._dim.x" not in R.key(lp["cond"]):
+                prob.append("the column loop runs to %s, not to _settings._dim.x" % R.key(lp["cond"])[:60])
+        inits = {dd["name"]: R.key(dd["init"]) for dn, _ in R.find(g["body"], lambda x: x.get("k") == "Decl") for dd in dn["decls"] if dd.get("name") and dd.get("init") is not None}
+
+        def expand(k, depth=0):
+            for n, v in inits.items():
+                if depth < 4 and re.search(r"(?<![\w%%])%s(?![\w])" % re.escape(n), k):
+                    k = re.sub(r"(?<![\w%%])%s(?![\w])" % re.escape(n), lambda m: expand(v, depth + 1), k)
+            return k
+        rng = [expand(R.key(c)) for c, _ in R.find(g["body"], lambda x: x.get("k") == "Call" and "_cc_policy.read(" in R.key(x))]
+        for r in rng:
+            if "_settings._top_left.x" not in r or "_settings._dim.x" not in r:
+                prob.append("the converted range is %s" % r[:120])
+        if not subs and not rng and not R.find(g["body"], lambda x: x.get("k") == "Call" and (x.get("callee") or {}).get("name", "").endswith("copy_data")):
+            prob.append("no access to the source row found")
+        if prob:
+            rep.violation("S4-clone-pair", key, R.fn_where(f), {"problems": prob, "example": "\"P1 3 1 / 0 1 0\" read with settings (1,0)+(2,1) into gray1: columns 0,1 instead of 1,2"})
+        else:
+            rep.ok("S4-clone-pair", key, "columns [_top_left.x, _top_left.x + _dim.x)")
+    # S4b: member functions that exist, under one name, in the reader (or its back end) and in the scanline reader of a format and write the same members are copies of
+    # each other: their effects and the calls that size or fill the shared state must agree (extra read-only calls, such as an "already done" test, are allowed)
+    rep.rule("S4b bmp read_palette exists twice (reader_backend, scanline_reader): both copies have the same effects and the same calls on _palette in canonical form "
+             "(a palette entry's alpha, the size, the bytes consumed per entry must not differ between read_image and the scanline reader)")
+    clones = {}
+    for f in fns:
+        parts = f["name"].split("::")
+        if fmt_of(f) == "bmp" and parts[-1] == "read_palette" and len(parts) >= 4 and parts[2] in ("reader_backend", "scanline_reader") and parts[2] not in clones and f.get("body") is not None:
+            g = R.canonize(f)
+            eff = sorted(k for k, _, _ in R.effects(g["body"]))
+            calls = sorted(R.key(c) for c, _ in R.find(g["body"], lambda x: x.get("k") == "Call" and x.get("member_call") and
+                                                       (R.key(x).startswith("_palette.") or R.key(x).startswith("this._palette.")) and not re.search(r"\.(size|empty)\(\)$", R.key(x))))
+            reads = sum(1 for c, _ in R.find(g["body"], lambda x: x.get("k") == "Call" and (x.get("callee") or {}).get("name", "").endswith("read_uint8")))
+            clones[parts[2]] = (eff, calls, reads, f)
+    rep.count("obligations:S4")
+    if len(clones) == 2:
+        a, b = clones["reader_backend"], clones["scanline_reader"]
+        if a[:3] == b[:3]:
+            rep.ok("S4-clone-pair", "S4b:bmp:read_palette", a[1])
+        else:
+            rep.violation("S4-clone-pair", "S4b:bmp:read_palette", R.fn_where(b[3]), {"reader_backend only": sorted(set(a[0] + a[1]) - set(b[0] + b[1])), "scanline_reader only": sorted(set(b[0] + b[1]) - set(a[0] + a[1])),
+                          "bytes read per entry": [a[2], b[2]], "example": "1-bit bmp: read_image gives palette pixels alpha 255, the scanline reader's rows have alpha 0"})
+    else:
+        rep.fail_analysis("S4b: bmp read_palette copies found: %s" % sorted(clones))
 
 
 def policies(rep, fns):
@@ -897,21 +1031,27 @@ def tiff_palette_size(rep, fns):
 
 def policy_bypass(rep, fns):
     """S15: in a reader instantiated with a converting policy every pixel reaches the destination view through _cc_policy.read"""
-    rep.rule("S15 bmp/pnm/targa readers instantiated with read_and_convert<CC>: no member function stores into the destination view directly (assignment through an "
+    rep.rule("S15 bmp/pnm/targa/tiff readers instantiated with read_and_convert<CC>: no member function stores into the destination view directly (assignment through an "
              "iterator obtained from view.row_begin/begin/x_at, or std::copy/fill/transform into one) -- every pixel goes through _cc_policy.read, so that "
              "read_and_convert_image == color_convert of read_image (direct stores are the no-convert overload's business, selected by is_read_only)")
     seen = {}
+    refusals = {}
     n_fn = 0
     for f in fns:
         cls = f.get("cls", "")
-        if "read_and_convert<" not in cls or not re.search(r"(bmp|pnm|targa)_tag", cls) or f.get("body") is None or "::reader::" not in "::" + f["name"]:
+        if "read_and_convert<" not in cls or not re.search(r"(bmp|pnm|targa|tiff)_tag", cls) or f.get("body") is None or "::reader::" not in "::" + f["name"]:
             continue
+        # S15b: a member of a converting reader that does nothing but raise refuses a destination type instead of converting into it
+        top = [st for st in (f["body"].get("c") or []) if st.get("k") not in ("Null",)]
+        if len(top) == 1 and top[0].get("k") == "Call" and (top[0].get("callee") or {}).get("name", "").endswith("io_error") and len(f["params"]) >= 2:
+            fmt0 = re.search(r"(bmp|pnm|targa|tiff)_tag", cls).group(1)
+            refusals.setdefault("S15b:%s:reader::%s:unconditional io_error" % (fmt0, f["name"].split("::")[-1]), (R.fn_where(f), R.key(top[0]["args"][0])[:100] if top[0].get("args") else ""))
         n_fn += 1
         g = R.canonize(f)
         facts = {dd["name"]: R.key(dd["init"]) for d, _ in R.find(g["body"], lambda x: x.get("k") == "Decl") for dd in d["decls"] if dd.get("name") and dd.get("init") is not None}
         dst = {n for n, k in facts.items() if re.match(r"\$\d+\.(row_begin|begin|x_at|at|row_end)\(", k)}
         # parameters that are iterators handed in by a caller which took them from the view are the callee's business: the caller's store site is the call
-        fmt = re.search(r"(bmp|pnm|targa)_tag", cls).group(1)
+        fmt = re.search(r"(bmp|pnm|targa|tiff)_tag", cls).group(1)
         for k, x, p in R.effects(g["body"]):
             m = re.match(r"\(\(\*\(?(%\d+|\$\d+\.row_begin\([^)]*\))(?: \+\+ 0)?\)?\) = ", k) or re.match(r"\((%\d+)\[[^\]]*\] = ", k)
             if m and (m.group(1) in dst or m.group(1).startswith("$")):
@@ -928,6 +1068,12 @@ def policy_bypass(rep, fns):
         rep.fail_analysis("S15: only %d member functions of converting bmp/pnm/targa readers instantiated" % n_fn)
     elif not seen:
         rep.ok("S15-policy-bypass", "S15: %d member functions of converting readers, no direct store into the destination view" % n_fn, n_fn)
+    rep.count("obligations:S15")
+    if not refusals:
+        rep.ok("S15-policy-bypass", "S15b: no member of a converting reader is an unconditional io_error", n_fn)
+    for key, (where, msg) in sorted(refusals.items()):
+        rep.violation("S15-policy-bypass", key, where, {"message": msg, "problem": "a decode path of a converting reader that refuses the destination type outright: read_and_convert_image throws where "
+                                                        "color_convert of the native read is defined", "example": "tiff palette file, read_and_convert_image into rgb8: \"User supplied image type must be rgb16_image_t.\""})
     for key, where in sorted(seen.items()):
         rep.count("obligations:S15")
         rep.violation("S15-policy-bypass", key, where, {"problem": "this store does not pass through the color converter: read_and_convert_image delivers the channels copied by name "
